@@ -23,6 +23,9 @@ type Sim struct {
 	// Replicas execute every block of Exec/Step as well (own store, own fake EL, other node key);
 	// any difference in app hash or transaction results is returned as a "replica divergence" error.
 	Replicas []*Node
+	// OnReimport, if set, is called by Reimport with a function that replaces a node by a fresh application booted
+	// from the same export, keeping the node's fake EL (for replicas a property manages itself).
+	OnReimport func(reboot func(old *Node) (*Node, error)) error
 }
 
 // AddReplica attaches a replica; it must be called before the first block.
@@ -320,13 +323,19 @@ func (s *Sim) Reimport() (err error) {
 		}
 		return m, resp, nil
 	}
-	old := s.Node
-	old.closeClient()
-	m, resp, err := boot(old.Eng, old.ValIdx)
+	reboot := func(old *Node) (*Node, *abci.ResponseInitChain, error) {
+		old.closeClient()
+		m, resp, err := boot(old.Eng, old.ValIdx)
+		if err != nil {
+			return nil, nil, err
+		}
+		m.ownEng = old.ownEng
+		return m, resp, nil
+	}
+	m, resp, err := reboot(s.Node)
 	if err != nil {
 		return err
 	}
-	m.ownEng = old.ownEng
 	ch, err := NewChain(spec2, resp.Validators)
 	if err != nil {
 		m.Close()
@@ -334,12 +343,19 @@ func (s *Sim) Reimport() (err error) {
 	}
 	s.Node, s.Chain, s.Spec, s.InitVals = m, ch, spec2, resp.Validators
 	for i, r := range s.Replicas {
-		r.Close()
-		n, _, err := boot(nil, 1+i)
+		n, _, err := reboot(r)
 		if err != nil {
 			return fmt.Errorf("replica: %w", err)
 		}
 		s.Replicas[i] = n
+	}
+	if s.OnReimport != nil {
+		if err := s.OnReimport(func(old *Node) (*Node, error) {
+			n, _, err := reboot(old)
+			return n, err
+		}); err != nil {
+			return fmt.Errorf("replica: %w", err)
+		}
 	}
 	return nil
 }
